@@ -1,4 +1,7 @@
+pub mod auth;
 pub mod parse;
+pub mod paths;
+pub mod refs;
 
 use crate::common::Fails;
 use serde_json::Value;
@@ -8,6 +11,10 @@ use serde_json::Value;
 pub fn run_case(case: &Value, f: &mut Fails) -> Result<(), String> {
 	match case["k"].as_str() {
 		Some("parse") => parse::run(case, f),
+		Some("auth") => auth::run(case, f),
+		Some("path") => paths::run_path(case, f),
+		Some("iter") => paths::run_iter(case, f),
+		Some("ref") => refs::run(case, f),
 		Some(k) => return Err(format!("unknown case kind {k}")),
 		None => return Err("case without kind".into()),
 	}
